@@ -348,6 +348,9 @@ type Finding struct {
 func describeOp(p *plan.SchedPlan, t, j int) string {
 	op := p.Tasks[t][j]
 	spec, _ := specOf(p, p.Tasks[t], op)
+	if op.Kind == "create" && op.New != nil {
+		spec = *op.New
+	}
 	d := "-"
 	if op.Datum >= 0 && op.Datum < len(p.Data) {
 		d = p.Data[op.Datum].String()
@@ -577,6 +580,11 @@ func genObj(r *plan.Rand, uniq string, data []DatumSpec, allowFilter bool) (ObjS
 	}
 	if r.Chance(0.3) {
 		opts.Hook = []string{"identity", "unwrap", "poison"}[r.Intn(3)]
+	}
+	if r.Chance(0.12) {
+		// a parse budget: mostly generous, sometimes too small (creation then
+		// fails with the max-expressions error, an outcome like any other)
+		opts.Max = []uint64{200, 2000, 20000, 1 << 20, 1 << 40}[r.Intn(5)]
 	}
 	g := &ExprGen{R: r.Fork(), Tag: opts.Tag, Uniq: uniq}
 	root := Build(d)
